@@ -438,7 +438,17 @@ def go_batches(ctx, binary, fast, slow, procs=4):
     outs = {}
 
     def work(tag, lines):
-        outs[tag] = go_run_own(ctx, binary, lines, tag) if lines else ([], None)
+        if not lines:
+            outs[tag] = ([], None)
+            return
+        o, crash = go_run_own(ctx, binary, lines, tag)
+        # a crashed / killed process loses the rest of its batch: skip the culprit line and run the tail again (once)
+        if len(o) < len(lines):
+            rest = lines[len(o) + 1:]
+            o2, crash2 = go_run_own(ctx, binary, rest, tag + "r") if rest else ([], None)
+            o = o + ["HARNESS-ERROR process died on this schedule"] + o2
+            crash = crash or crash2
+        outs[tag] = (o, crash)
 
     ths = [threading.Thread(target=work, args=j) for j in jobs]
     for t in ths:
